@@ -43,7 +43,17 @@ def civil_carry_chain():
 PROPERTIES = {
     'C04': dict(
         goals=lambda: civil_spec_lemmas() + civil_leaves() + civil_nday() + civil_carry_chain(),
-        trusted_base=['/verif/stubs/prelude.h (type spellings only)', '/verif/spec/gregorian.h (the specification; pinned by spec lemmas)'],
+        trusted_base=['/verif/stubs/prelude.h (type spellings only)', '/verif/spec/gregorian.h (the specification: ORD, LEAP, DIM, CUM)',
+                      'opaque specification symbols (DAYORD, VALIDD, MONBASE, NMON_PRE, ORDI, LEAPI, FMI, IDX400, FD24..FM60) are uninterpreted '
+                      'functions whose definitions are assumed only at instantiated argument tuples (REVEAL_* macros in contracts/civil.h)'],
+        level_text='Unbounded proof, for all int64 arguments, that the carry chain n_sec -> n_min -> n_hour -> n_mon -> n_day (incl. its four loops, '
+                   'with loop invariants and decreases clauses) and the six constructors return the valid date whose day ordinal is the month base plus '
+                   'the carried days, with hh/mm/ss the floor remainders, alignment fields reset, no signed overflow / out-of-bounds table access under '
+                   'exactly the property\'s representability precondition.  Every obligation CBMC generates from the extracted code and contracts is '
+                   'discharged; code-free arithmetic lemmas (400-year periodicity, floor-division shifts) are discharged the same way.',
+        level_note='Trusted: the mechanical C++->C extraction rules (listed in evidence), CBMC/solvers, the Gregorian specification macros. '
+                   'The alignment conversions between civil types (ct_T_from_ct) are covered through align_T contracts. Not covered: operator<< and the '
+                   'std::ostream formatting in civil_time_detail.cc.',
         not_decided='',
         assumptions=[],
     ),
@@ -72,8 +82,16 @@ def fixed_goals():
             G('pl_C15_far_is_utc', 'fixed', harness='pl_C15_far_is_utc', kind='lemma', timeout=300, **un)]
 
 
+NOT_YET = {}
+
+
 PROPERTIES['C15'] = dict(
     goals=fixed_goals,
+    level_text='Proof (all int64 offsets; all name strings up to the 31-byte capacity of the string model) that FixedOffsetToName/ToAbbr render exactly the '
+               'documented text, FixedOffsetFromName accepts exactly UTC, UTC0 and well-formed names totalling at most 24h and returns the signed total, and '
+               'that FromName(ToName(off)) == off. Loops of the string model are unwound to the model capacity with unwinding assertions (complete).',
+    level_note='std::string is an executable C model (stubs/vstr.h, trusted); strchr is CBMC\'s built-in model. The zone-level half (a fixed zone reports '
+               'that offset at every instant) is not decided here.',
     trusted_base=['/verif/stubs/vstr.h (executable model of the std::string subset; capacity 32 bytes)',
                   'CBMC built-in model of strchr', '/verif/stubs/prelude.h'],
     not_decided='zone-level half (lookup of a fixed zone reports that offset at every instant; name cache identity) is decided under C01/C14, not here',
